@@ -238,7 +238,7 @@ def _obs():
     obs = []
     obs.append(Ob('K1', 'k1_names', 'test names generated for output files are pairwise distinct identifiers and never '
                   'one of the fixed test names, so no definition replaces another',
-                  '3 basenames: every string len 1..2 over a 3-letter alphabet (same obligation as C11-K2)',
+                  '3 basenames: every string len 1..2, 1..2 and 1 over the C11 file-name alphabet (same obligation as C11-K2)',
                   timeout=400))
     obs.append(Ob('K2', 'k2_script_structure', 'the script written by the real write_script has exactly one test per '
                   'checked stream and per reference file plus the exit-code and exception tests, no duplicate '
@@ -278,7 +278,7 @@ def k4_binary(a: List[int], b: List[int]) -> bool:
 def k1_names(i1: List[int], i2: List[int], i3: List[int]) -> bool:
     """
     pre: C11._idx_ok(i1, 2, C11.FILE_ALPHABET, 1) and C11._idx_ok(i2, 2, C11.FILE_ALPHABET, 1)
-    pre: C11._idx_ok(i3, 2, C11.FILE_ALPHABET, 1)
+    pre: C11._idx_ok(i3, 1, C11.FILE_ALPHABET, 1)
     post: __return__
     """
     return C11.test_names_body(i1, i2, i3)
